@@ -1,8 +1,8 @@
 EXPLANATION = ('C09: (A) SummaryState::update/update_well_var/update_group_var/update_elapsed with symbolic values: cumulative keys accumulate, others overwrite; '
   '(B) the real keyword -> function table `funs` of Summary.cpp (built by running the translation unit\'s static constructor) is evaluated for W/G/F oil/water/gas/liquid production and injection rates, '
   'totals and ratios on a two-well model with symbolic rates, efficiency factors, step length and open/shut status, and compared with the defining expressions.')
-BOUNDS = 'two wells below one group, all real rates of either sign, efficiency factors in (0,1], every open/shut pattern; 25 keywords of the W/G/F x {O,W,G,L} x {P,I} x {R,T} families plus WCT/GOR'
-OUTSIDE = 'SummaryConfig keyword expansion, Summary::eval driver and unit conversion on output, group trees deeper than one level (accumulated efficiency factors are an input here), voidage, calendar vectors'
+BOUNDS = 'two wells below one group (history: two producers and a water injector), all real rates of either sign, efficiency factors in (0,1], every open/shut pattern; 25 keywords of the W/G/F x {O,W,G,L} x {P,I} x {R,T} families plus WCT/GOR, 6 voidage keywords, 14 history keywords, and the unit tag of 17 of them'
+OUTSIDE = 'SummaryConfig keyword expansion, Summary::eval driver and unit conversion on output, group trees deeper than one level (accumulated efficiency factors are an input here), calendar vectors'
 ASSUMPTIONS = ['doubles as reals', 'fn_args members that the evaluated functions do not touch (grid, schedule, region cache, inplace) are references to zeroed storage', 'Opm::Well objects built by the real constructor']
 TUS = ['opm/input/eclipse/Schedule/SummaryState.cpp', 'opm/input/eclipse/Schedule/Well/Well.cpp', 'opm/input/eclipse/Units/UnitSystem.cpp', 'opm/input/eclipse/Units/Dimension.cpp', 'opm/common/utility/String.cpp',
        'opm/input/eclipse/Schedule/ScheduleTypes.cpp', 'opm/common/utility/TimeService.cpp'] + ['opm/input/eclipse/Schedule/Well/%s.cpp' % n for n in (
@@ -11,5 +11,6 @@ TUS = ['opm/input/eclipse/Schedule/SummaryState.cpp', 'opm/input/eclipse/Schedul
        'opm/input/eclipse/Schedule/VFPProdTable.cpp', 'opm/input/eclipse/EclipseState/Phase.cpp']
 def jobs(tier):
     return [dict(name='state', src='h_summary.cpp', defs={}, entry='h_state', tus=TUS, fp='real', loopmax=100000, maxsteps=400000000, opts=['--ctors']),
-            dict(name='rates', src='h_summary.cpp', defs={}, entry='h_rates', tus=TUS, fp='real', loopmax=100000, maxsteps=400000000, opts=['--ctors']),
+            dict(name='rates', src='h_summary.cpp', defs={}, entry='h_rates', tus=TUS, fp='real', loopmax=100000, maxsteps=400000000, timeout=900, opts=['--ctors'], partial_sites=True),
+            dict(name='voidage', src='h_summary.cpp', defs={'VOIDAGE': 1}, entry='h_rates', tus=TUS, fp='real', loopmax=100000, maxsteps=400000000, timeout=900, opts=['--ctors'], partial_sites=True),
             dict(name='history', src='h_summary.cpp', defs={}, entry='h_history', tus=TUS + ['opm/input/eclipse/Schedule/eval_uda.cpp', 'opm/input/eclipse/Schedule/Well/injection.cpp'], fp='real', loopmax=100000, maxsteps=400000000, timeout=900, opts=['--ctors'])]
